@@ -486,7 +486,8 @@ def run_kernels(check, pool, Task):
     # others must show no float32-typed arithmetic at all (then they are the float64 obligations above)
     f32plan = [('line', [2], True), ('line', [3], False), ('line', [2, 2], False), ('polygon', [[3]], False), ('polygon', [[3, 3]], False), ('polygon', [[3], [3]], False)]
     if tier == 'thorough':
-        f32plan += [('line', [3], True), ('line', [2, 2], True), ('polygon', [[3]], True), ('line', [4], False), ('polygon', [[4, 3]], False), ('polygon', [[3, 3], [3]], False)]
+        # (a monolithic exact query of a polygon is not decided within the cap even without rounding: only lines are solved outright)
+        f32plan += [('line', [3], True), ('line', [4], False), ('line', [2, 2, 2], False), ('polygon', [[4, 3]], False), ('polygon', [[3, 3], [3]], False)]
     for kind, st, solve in f32plan:
         tasks.append(Task(f"kernel:float32 buffer, {kind} {st} ({'exact, monolithic' if solve else 'float32-typed operations'})", q_f32, (kind, st),
                           {'timeout': min(cap, 600), 'seed': check.seed, 'solve': solve}, timeout=min(cap, 600) + 60,
